@@ -3,6 +3,7 @@ package sim
 import (
 	"encoding/json"
 	"errors"
+	"fmt"
 	"time"
 
 	"github.com/weedbox/pokerface"
@@ -39,11 +40,19 @@ type faultBackend struct {
 	forceFail      int // fail the next n calls (consecutive failures)
 	SleptMs        int64
 	suppress       bool
+	enum           bool // fault-enumeration run (C13): exactly the failOrd-th backend call fails
+	failOrd        int
 	consumed       map[string]int // hand states that a successful step has already been applied to
 }
 
 func newFaultBackend(w *tableWorld) *faultBackend {
-	return &faultBackend{w: w, real: pt.NewNativeGameBackend(), st: w.c.St.Get("fault")}
+	b := &faultBackend{w: w, real: pt.NewNativeGameBackend(), st: w.c.St.Get("fault")}
+	if v, ok := w.c.Ov("fail_ordinal"); ok {
+		b.enum = true
+		fmt.Sscan(v, &b.failOrd)
+		w.c.Cfg["fail_ordinal"] = b.failOrd
+	}
+	return b
 }
 
 func normState(gs *pokerface.GameState) string {
@@ -80,10 +89,15 @@ func (b *faultBackend) do(kind string, in *pokerface.GameState, f func() (*poker
 		stale = inNorm != b.lastOK
 	}
 	fail := false
-	if b.forceFail > 0 {
+	if b.failOrd > 0 && b.ord == b.failOrd && kind != "CreateGame" {
+		fail = true
+		c.Probe("enumerated_failure_" + kind)
+	} else if b.failOrd >= 0 && b.enum {
+		// enumeration run: no random injection
+	} else if b.forceFail > 0 {
 		b.forceFail--
 		fail = true
-	} else if b.w.cfg.backendF && !b.suppress && b.w.inFaultWindow() && kind != "CreateGame" {
+	} else if b.w.cfg.backendF && !b.enum && !b.suppress && b.w.inFaultWindow() && kind != "CreateGame" {
 		switch b.st.Pick(90, 6, 2, 2) {
 		case 1:
 			fail = true
